@@ -47,13 +47,21 @@ def oracle_cases(tier, rng):
                     yield dict(layer=1, biort=b, qshift=q, colour=colour, bias=bias, kind=kind, H=8, W=8, seed=int(rng.integers(1 << 30)))
                     if kind == 'small':
                         yield dict(layer=2, biort=b, qshift=q, colour=colour, bias=bias, kind=kind, H=8, W=8, seed=int(rng.integers(1 << 30)))
+    # scale covariance: sqrt(|s z|^2 + (s b)^2) - s b = s (sqrt(|z|^2 + b^2) - b) and the filters are linear, so the layer with bias
+    # s*b at the image s*x is s times the layer with bias b at x, and the two back-propagated gradients are EQUAL (exactly, for s a
+    # power of two): small biases on faint images and large ones on bright images are the same gradient as the ordinary case
+    for (b, q) in fams[:2]:
+        for colour in (0, 1):
+            for layer in (1, 2):
+                for e in (-23, -60, 20):
+                    yield dict(layer=layer, biort=b, qshift=q, colour=colour, bias=0.125, kind='gauss', H=8, W=8, covar=e, seed=int(rng.integers(1 << 30)))
     for bias in (1e-3, 0.5):
         for sub in ((1, 0), (0, 1), (1, 1)):
             yield dict(layer=0, biort='-', qshift='-', colour=0, bias=bias, kind='smag', H=4, W=4, subset=list(sub), seed=int(rng.integers(1 << 30)))
 
 
 def strat_key(cfg):
-    return 'L%d/%s/c%d/b%g/%s%s' % (cfg['layer'], cfg['biort'], cfg['colour'], cfg['bias'], cfg['kind'], '/' + cfg['mode'] if cfg.get('mode') else '')
+    return 'L%d/%s/c%d/b%g/%s%s' % (cfg['layer'], cfg['biort'], cfg['colour'], cfg['bias'], cfg['kind'], '/' + cfg['mode'] if cfg.get('mode') else '') + ('/covar%d' % cfg['covar'] if cfg.get('covar') else '')
 
 
 def oracle_run(cfg):
@@ -87,6 +95,20 @@ def oracle_run(cfg):
                ScatLayerj2(biort=cfg['biort'], qshift=cfg['qshift'], magbias=b, combine_colour=bool(cfg['colour']))).double()
         x = torch.tensor(X, requires_grad=True)
         Z = lay(x)
+        if cfg.get('covar'):
+            s = 2.0 ** cfg['covar']
+            lay_s = (ScatLayer(biort=cfg['biort'], magbias=b * s, combine_colour=bool(cfg['colour'])) if cfg['layer'] == 1 else
+                     ScatLayerj2(biort=cfg['biort'], qshift=cfg['qshift'], magbias=b * s, combine_colour=bool(cfg['colour']))).double()
+            xs = torch.tensor(X * s, requires_grad=True)
+            Zs = lay_s(xs)
+            g = torch.tensor(r.standard_normal(tuple(Z.shape)))
+            ga, = torch.autograd.grad([Z], [x], [g]); gb, = torch.autograd.grad([Zs], [xs], [g])
+            if not torch.isfinite(gb).all():
+                return dict(detail='non-finite gradient at scale 2^%d' % cfg['covar'])
+            d = float((ga - gb).abs().max())
+            if d > 1e-10 * max(1.0, float(ga.abs().max())):
+                return dict(detail='gradient of the layer with bias 2^%d*b at 2^%d*x differs from that of the layer with bias b at x by %.3g (they are equal)' % (cfg['covar'], cfg['covar'], d))
+            return None
         sc = max(1.0, float(np.abs(X).max()))
         for fam, (g,) in cot_families(r, [Z.shape]):
             if fam.startswith('randn *'): continue          # the finite-difference tolerance below has an absolute floor
